@@ -28,6 +28,7 @@ SHAPES = [
     ("remap", [[0, 0]] * 3, False, T, dict(params=dict(m=1), budget=1800, shard=6)),
     ("remap", [[1, 0], [0, 0]], False, T, dict(params=dict(m=1), budget=1800, shard=6)),
     ("remap", [[1, 1], [0, 1]], False, T, dict(params=dict(m=1), budget=2400, shard=7)),
+    ("remap", [[0, 0]], False, Q, dict(params=dict(m=3, chain=True), budget=900, shard=6)),      # the 3-leg chain over one record
     # a three-leg chain k0 -> k1 -> k2 -> v (values are the next keys), which keeps a 3-pair remapping tractable
     ("remap", [[1, 0], [1, 0], [0, 0]], False, T, dict(params=dict(m=3, chain=True), budget=3000, shard=12)),
 ]
